@@ -37,6 +37,10 @@ def gen_cases(tier, seed):
         dev = zoo.gen_device(rng, n_terminals=nt, n_holes=int(k % 5 == 0), probes=int(rng.choice([0, 2])), size="tiny" if scr else "small")
         o = S.base_options(rng, adaptive=bool(k % 2), steps=40 if scr else 100, screening=scr)
         o["terminal_psi"] = TPSI[k % len(TPSI)]
+        if scr:
+            o["terminal_psi"] = [0.5, [0.3, 0.4], -0.7, 1.0][(k // 7) % 4]  # screening iterations with a non-zero pinned value
+        if k % 5 == 3:
+            dev["film"]["points"] = 4  # film given by its corners only: the mesher inserts the boundary sites itself
         Ak = ["zero", "uniform", "ramp", "osc"][k % 4]
         Ik = ["none", "const", "callable", "const"][(k // 2) % 4]
         drive = {"A": S.field_spec(rng, dev, o, Ak, b=0.2), "currents": S.current_spec(rng, dev, o, Ik, strength=0.15)}
